@@ -65,7 +65,7 @@ ASSUMPTIONS = {
             "a zero / nil payload with a missing wrapper and an encrypting configuration yields an error, not the same event (the wrapper check comes first)"],
     "C16": ["AEAD (AES-GCM of go-kms-wrapping), wrapper derivation, HKDF and HMAC-SHA256 are Section functions with the hypotheses dec k (enc k n m) = Some m; determinism is functionality",
             "each encrypt()/hmacSha256() call, each Rotate / rotation payload and the head of Process of an event with per-event wrapper info (wrapper derivation + resolution of its salt / info) is one atomic step: they run under Filter.l",
-            "Filter.Rotate(WithSalt(s)) and the exported HmacSalt / HmacInfo fields keep the caller's slice (the unmutated library does; neither C16 nor C19 forbids it): only a write of the LIBRARY into such a slice is reported (CKCallerSlice), and filters configured from one slice are each judged against their own history", "the harness re-implements HKDF, HMAC framing, the per-event key derivation, the BlobInfo wire format and AES-GCM open independently of the library"],
+            "an HKDF salt is an HMAC key (zero-padded): nil = empty salt, trailing NUL bytes of a salt are immaterial, and event ids that differ only in trailing NUL bytes derive the same per-event key (NewEventWrapper uses the id as salt) - the model identifies them", "Filter.Rotate(WithSalt(s)) and the exported HmacSalt / HmacInfo fields keep the caller's slice (the unmutated library does; neither C16 nor C19 forbids it): only a write of the LIBRARY into such a slice is reported (CKCallerSlice), and filters configured from one slice are each judged against their own history", "the harness re-implements HKDF, HMAC framing, the per-event key derivation, the BlobInfo wire format and AES-GCM open independently of the library"],
 }
 _NOTE = ("Trusted: Coq 8.16.1 kernel + vm_compute; no axioms (Print Assumptions: closed under the global context); the Go correspondence harness encrypth: "
          "its Go type/value builder (reflect.StructOf/MapOf/SliceOf + hand-written Taggable / unexported-field / payload-interface types), its projection of Go values to "
